@@ -101,6 +101,9 @@ var extMutators = map[string]int{
 	"sort.Strings":   0, "sort.Ints": 0, "sort.Slice": 0, "sort.SliceStable": 0,
 	"encoding/binary.(bigEndian).PutUint16": 1, "encoding/binary.(bigEndian).PutUint32": 1, "encoding/binary.(bigEndian).PutUint64": 1,
 	"encoding/binary.(littleEndian).PutUint16": 1, "encoding/binary.(littleEndian).PutUint32": 1, "encoding/binary.(littleEndian).PutUint64": 1,
+	// append into spare capacity of the argument
+	"encoding/binary.(bigEndian).AppendUint16": 1, "encoding/binary.(bigEndian).AppendUint32": 1, "encoding/binary.(bigEndian).AppendUint64": 1,
+	"encoding/binary.(littleEndian).AppendUint16": 1, "encoding/binary.(littleEndian).AppendUint32": 1, "encoding/binary.(littleEndian).AppendUint64": 1,
 }
 
 // external functions whose result aliases (or is a grown copy of) argument 0
